@@ -14,6 +14,7 @@ ASSUMPTIONS = [
     "msgpack encoding as produced by ugorji/go/codec v1.3.1 MsgpackHandle with default options (validated byte-for-byte on every run)",
     "lengths < 2^32 and counts < 2^63 (Go int/uint64 ranges) - larger values cannot be constructed",
     "hostile-input robustness of the third-party decoder is observed on generated inputs only",
+    "node ids are valid UTF-8 (cluster configuration); since fix U1 the real ApplyDigest/applyDeltaEntry ignore any other id, the world model applies the same filter where forged packets enter (WInject, Gossip/World.v sanitize_body)",
 ]
 TRUSTED = ["python wire-format implementation props/wire.py (independent encoder/decoder used by the monitor and the generators)"]
 
